@@ -45,7 +45,7 @@ pub fn gen_case(rng: &mut Rng, idx: usize, thorough: bool) -> Value {
         // compute_ff_bytes, and EOS is illegal until their tokens have been committed
         let fams = eng::families();
         let n = fams.len();
-        let (g, t) = &fams[n - 6 + (idx / 8) % 6];
+        let (g, t) = &fams[[n - 8, n - 7, n - 6, n - 5, n - 2, n - 1][(idx / 8) % 6]];
         return json!({"kind": "api", "grammar": g.to_json(), "texts": t.iter().map(|t| vocab::hex(t.as_bytes())).collect::<Vec<_>>(), "vocab_kind": (idx / 32) % 3, "canonical": true, "seed": rng.next() % 1_000_000_000, "steps": steps});
     }
     let (g, texts) = eng::gen_grammar(rng, idx);
